@@ -23,6 +23,10 @@ def case_hash(c):
 
 class K3Adapter(object):
     """Broker / portfolio / position op sequences (C01-C05, C15)."""
+
+    def accepts(self, case):
+        return 'ops' in case
+
     N = dict(quick=150, thorough=3000)
     SEARCH = dict(quick=300, thorough=3000)
 
@@ -151,6 +155,9 @@ class CaseAdapter(object):
     def mod(self):
         return __import__(self.module_name)
 
+    def accepts(self, case):
+        return 'kind' in case
+
     def n_cases(self, prop, tier):
         n = self.N[tier]
         return n.get(prop, n.get('default')) if isinstance(n, dict) else n
@@ -209,5 +216,80 @@ class K4Adapter(CaseAdapter):
                      'C19': ['dyn:entry-exactly-now', 'dyn:no-entry-date']}
 
 
-PROPS = {p: K3Adapter for p in ('C01', 'C02', 'C03', 'C04', 'C05', 'C15')}
+class K1Adapter(CaseAdapter):
+    module_name = 'k1'
+    label = 'K1 (harness/k1.py)'
+    N = dict(quick={'C12': 1500, 'C13': 1500, 'C04': 400}, thorough={'C12': 20000, 'C13': 20000, 'C04': 20000})
+    SEARCH = dict(quick=1500, thorough=10000)
+    rule = ('seeded (start, end) ranges 1971-2099: any weekday alignment, month/year/leap-day boundaries, lengths {0..45, 58..63, '
+            '364..367, 730..732} days, start times 00:00/14:30/arbitrary, end 23:59 or any time (about 15% outside the '
+            "quantifier, compared with the generative model but not judged by the oracle), all flag combinations, weekday "
+            'strings in mixed case and invalid; plus the calendar table 1970-01-01..2199-12-31 compared exhaustively with '
+            'datetime.date; non-trivial = an accepted case with a non-empty result; distinct by SHA-256')
+    assumptions = ['pandas date_range/bdate_range/BusinessDay/BME and Timestamp parsing are modelled (DESIGN.md 9)']
+    required_hist = {'C12': ['start-on-weekend', 'single-day', 'out:ValueError'],
+                     'C13': ['start-on-weekend', 'eom:month-end-on-weekend', 'out:ValueError', 'kind:bh']}
+
+
+class Composite(object):
+    """Several harnesses decide one property: results are concatenated, coverage is summed / nested."""
+    parts = ()
+
+    def __init__(self):
+        self.subs = [cls() for cls in self.parts]
+
+    def run(self, prop, tier, seed):
+        out = None
+        for sub in self.subs:
+            r = sub.run(prop, tier, seed)
+            if out is None:
+                out = r
+                out['coverage'] = dict(r['coverage'])
+                out['coverage']['by_harness'] = {r['harness']: dict(evaluations=r['coverage']['evaluations'],
+                                                                   input_distribution=r['coverage'].get('input_distribution'))}
+                continue
+            out['findings'] += r['findings']
+            out['mismatches'] += r['mismatches']
+            c, c2 = out['coverage'], r['coverage']
+            for k in ('evaluations', 'distinct_nontrivial', 'traces_validated_against_impl', 'corpus_cases'):
+                c[k] = c.get(k, 0) + c2.get(k, 0)
+            c['rule'] = c['rule'] + ' || ' + c2['rule']
+            c['samples'] = c['samples'] + c2['samples']
+            for k, v in c2.get('comparison', {}).items():
+                c['comparison'][k] = c['comparison'].get(k, 0) + v
+            c['by_harness'][r['harness']] = dict(evaluations=c2['evaluations'], input_distribution=c2.get('input_distribution'))
+            out['harness'] += ' + ' + r['harness']
+            out['assumptions'] += r['assumptions']
+        return out
+
+    def _sub_for(self, payload):
+        case = payload.get('case') or payload
+        for sub in self.subs:
+            if sub.accepts(case):
+                return sub
+        return self.subs[0]
+
+    def replay(self, prop, payload):
+        return self._sub_for(payload).replay(prop, payload)
+
+    def search(self, prop, tier, seed, mismatches):
+        found = []
+        for sub in self.subs:
+            found += sub.search(prop, tier, seed, mismatches)
+            if found:
+                break
+        return found
+
+    def shrink(self, prop, finding):
+        sub = self._sub_for(finding)
+        return sub.shrink(prop, finding) if hasattr(sub, 'shrink') else finding
+
+
+class C04Adapter(Composite):
+    parts = (K3Adapter, K1Adapter)
+
+
+PROPS = {p: K3Adapter for p in ('C01', 'C02', 'C03', 'C05', 'C15')}
+PROPS['C04'] = C04Adapter
+PROPS.update({p: K1Adapter for p in ('C12', 'C13')})
 PROPS.update({p: K4Adapter for p in ('C09', 'C10', 'C11', 'C19')})
